@@ -675,11 +675,17 @@ with the error that interrupted the loop, if any) -/
 def backwardGrads (h : Heap) (L : Nat) (topo : List Nat) (g : Val) : GMap × Option Err :=
   if (h.t L).creator.isNone then ([(L, g)], none) else backLoop h topo [(L, g)]
 
+/-- a former view whose graph was cleared while its base lingers starts over as a tensor of its own
+when `backward` is called on it (`Tensor.backward`: "tensor's graph has been cleared, but its base lingers") -/
+def startOver (h : Heap) (L : Nat) : Heap :=
+  if (h.t L).base.isSome ∧ (h.t L).creator.isNone then h.modT L ({ · with base := none }) else h
+
 /-- `L.backward(grad)` with tracking on.  An error carries the heap as the failed call leaves it. -/
 def backward (h : Heap) (L : Nat) (seed : Seed) : Except (Err × Heap) Heap :=
   let tL := h.t L
   if tL.const then .ok (clearGraph h.fuel h L)
   else
+    let h := startOver h L
     match collect h.fuel h L [] [] with
     | none => .error (.recursion, h)
     | some (touched, topo) =>
